@@ -796,7 +796,7 @@ class World:
         if _has_yield(node) and it.out is not None:
             it.out.seq = TSeq(it.out.seq.elem).fresh('out', path.pc)
             path.assume(it.out.seq.length >= 0)
-            for gname in ('pulls', 'yoff', 'ylen'):
+            for gname in ('pulls', 'yoff', 'ylen', 'ycalls'):
                 if gname in it.ghost_vars:
                     pl = it.ghost_vars[gname]
                     pl.seq = TSeq(TInt).fresh(gname)
